@@ -539,42 +539,45 @@ def main():
                 continue
             if r.get("truncated"):
                 hist["trace_truncated"] += 1
+            per_stream = collections.defaultdict(list)      # stream index -> [(activation, observations)]
             for ai, act in enumerate(r["acts"]):
                 for si, obs in act:
-                    try:
-                        c = absinstr.encode(r["streams"][si])
-                    except ValueError:
-                        continue
-                    c.append(len(obs))
+                    per_stream[si].append((ai, obs))
+            for si, acts in sorted(per_stream.items()):
+                code = r["streams"][si]
+                try:
+                    enc = absinstr.encode(code)
+                except ValueError:
+                    continue
+                tail = [len(acts)]
+                for ai, obs in acts:
+                    tail.append(len(obs))
                     for o in obs:
-                        c += o
-                    tcases.append(c)
-                    tmeta.append((ti, ci, ai, si, len(obs), r["streams"][si]))
+                        tail += o
                     hist["trace_observations"] += len(obs)
-                    code = r["streams"][si]
-                    for a, b in zip(obs, obs[1:]):
-                        if b[0] != a[0] + 1 and code[b[0]]["op"] == "PushLoop" and code[a[0]]["op"] in ("FastRecurse", "CallFunction"):
-                            hist["trace_recursion_entries_" + code[a[0]]["op"]] += 1
-                        if code[a[0]]["op"] == "PopLoopFrame" and b[0] != a[0] + 1:
+                    hist["trace_activations"] += 1
+                    for x, y in zip(obs, obs[1:]):
+                        if y[0] != x[0] + 1 and code[y[0]]["op"] == "PushLoop" and code[x[0]]["op"] in ("FastRecurse", "CallFunction"):
+                            hist["trace_recursion_entries_" + code[x[0]]["op"]] += 1
+                        if code[x[0]]["op"] == "PopLoopFrame" and y[0] != x[0] + 1:
                             hist["trace_recursion_returns"] += 1
+                tcases.append(enc + tail)
+                tmeta.append((ti, ci, si, code, tail, [ai for ai, _ in acts]))
         tlog("trace cases built: %d" % len(tcases))
         tver = pmap(lambda c: run_model("C05", "c05-trace", c), tcases)
         tlog("trace replay done")
-        hist["trace_activations"] = len(tcases)
         for meta, v in zip(tmeta, tver):
             if v[:1] == [1]:
-                hist["trace_replayed_ok"] += 1
+                hist["trace_streams_replayed_ok"] += 1
                 continue
-            ti, ci, ai, si, n, code = meta
+            ti, ci, si, code, tail, ais = meta
             # a stream whose zero constants need another typing: try the alternatives before believing it
             alts = list(absinstr.typings(code))[1:]
             ok = False
             if alts:
-                k = tmeta.index(meta)
-                tail = tcases[k][len(absinstr.encode(code)):]
                 ok = any(r[:1] == [1] for r in run_model("C05", "c05-trace", [absinstr.encode(code, t) + tail for t in alts]))
             if ok:
-                hist["trace_replayed_ok"] += 1
+                hist["trace_streams_replayed_ok"] += 1
             else:
                 trace_bad.append((meta, v))
     tlog("trace done: %d failures" % len(trace_bad))
@@ -630,7 +633,7 @@ def main():
             info["analysis"] = "activation of the recursive loop at pc %d entered by the call before pc %d (%s)" % (v[3], v[4], "capturing" if v[5] else "not capturing")
         chk.violation("a control-flow path of the compiled code is not balanced (verified checker rejects the stream)", info)
     ntr = 0
-    for (ti, ci, ai, si, n, code), v in trace_bad:
+    for (ti, ci, si, code, tail, ais), v in trace_bad:
         if ntr >= 5:
             break
         ntr += 1
@@ -638,9 +641,10 @@ def main():
                    4: "recursion entry: depths at the PushLoop differ", 5: "recursion entry: first body instruction differs", 6: "entry: fewer operands than the entry point's arguments",
                    7: "activation does not start at an entry point"}
         info = replay_of(ti, ci)
-        info.update({"activation": ai, "observation": v[1] if len(v) > 1 else None, "reason": reasons.get(v[2] if len(v) > 2 else 0, str(v)),
-                     "pc_before": v[3] if len(v) > 3 else None, "observed_pc": v[4] if len(v) > 4 else None,
-                     "instruction_before": code[v[3]] if len(v) > 3 and v[3] < len(code) else None, "family": T[ti]["name"],
+        info.update({"activation": ais[v[1]] if len(v) > 1 and v[1] < len(ais) else None, "observation": v[2] if len(v) > 2 else None,
+                     "reason": reasons.get(v[3] if len(v) > 3 else 0, str(v)),
+                     "pc_before": v[4] if len(v) > 4 else None, "observed_pc": v[5] if len(v) > 5 else None,
+                     "instruction_before": code[v[4]] if len(v) > 4 and v[4] < len(code) else None, "family": T[ti]["name"],
                      "note": "the observed run of eval_impl is not a run of the abstract machine: the VM holds other frames / captures / auto-escape entries / operands than the model says (the VM is unbalanced here, or Model.v misdescribes it)"})
         chk.violation("an observed run of eval_impl leaves the abstract shape machine (step-by-step replay of the traced render)", info)
     if not chk.violations and not proofs_ok:
